@@ -18,10 +18,10 @@ Qed.
 
 (* frame of the DBAPI calls: only the fault script and the log change *)
 Definition Fr (s s' : st) : Prop :=
-  idle s' = idle s /\ bad_close s' = bad_close s /\ twr_unsound s' = twr_unsound s /\ nconn s' = nconn s.
+  idle s' = idle s /\ twr_unsound s' = twr_unsound s /\ nconn s' = nconn s.
 Lemma Fr_refl : forall s, Fr s s. Proof. intros; repeat split. Qed.
 Lemma Fr_trans : forall a b c, Fr a b -> Fr b c -> Fr a c.
-Proof. intros a b c (?&?&?&?) (?&?&?&?); repeat split; congruence. Qed.
+Proof. intros a b c (?&?&?) (?&?&?); repeat split; congruence. Qed.
 
 Lemma next_fault_frame : forall s c s', next_fault s = (c, s') -> Fr s s'.
 Proof. unfold next_fault, Fr; intros. destruct (faults s); inversion H; subst; cbn; auto. Qed.
@@ -63,17 +63,17 @@ Variable kind : pkind.
 (* what _finalize_fairy + checkin leave in the pool *)
 Lemma finalize_spec : forall d nf twr s,
   let s' := finalize reset kind d nf twr s in
-  bad_close s' = bad_close s /\ nconn s' = nconn s /\
+  nconn s' = nconn s /\
   (twr_unsound s' = true -> twr_unsound s = true \/ (twr = true /\ in_txn d = true)) /\
   ((nf = O -> iso_default d) -> PoolIso s') /\
   ((nf = O -> iso_default d) -> DI d -> reset <> RNone -> (twr = true -> reset = RRollback -> in_txn d = false) -> PoolOk s').
 Proof.
   intros d nf twr s. unfold finalize.
   set (s0 := if twr && in_txn d then set_unsound s else s).
-  assert (F0 : idle s0 = idle s /\ bad_close s0 = bad_close s /\ nconn s0 = nconn s /\
+  assert (F0 : idle s0 = idle s /\ nconn s0 = nconn s /\
                (twr_unsound s0 = true -> twr_unsound s = true \/ (twr = true /\ in_txn d = true))).
   { subst s0. destruct twr, (in_txn d); cbn; auto 10. }
-  destruct F0 as (F1 & F2 & F3 & F4).
+  destruct F0 as (F1 & F3 & F4).
   match goal with |- context [match ?e with (_, _) => _ end] =>
     match type of e with (bool * db * st)%type => destruct e as [[ok d1] s1] eqn:E end end.
   assert (G : Fr s0 s1 /\
@@ -84,11 +84,11 @@ Proof.
       + apply db_rollback_spec in E. destruct E as [E1 E2]. split; [auto|]. intros ->. left. split; [auto|discriminate].
     - apply db_commit_spec in E. destruct E as [E1 E2]. split; [auto|]. intros ->. left. split; [auto|discriminate].
     - inversion E; subst. split; [apply Fr_refl|]. intros _. right. auto. }
-  destruct G as ((G1 & G2 & G3 & G4) & G5).
+  destruct G as ((G1 & G3 & G4) & G5).
   destruct ok.
   - destruct (run_finalizers nf d1 s1) as [d2 s2] eqn:Er. apply run_finalizers_spec in Er.
-    destruct Er as ((R1 & R2 & R3 & R4) & R5 & R6 & R7).
-    cbn. split; [congruence|]. split; [congruence|]. split; [intros; apply F4; congruence|].
+    destruct Er as ((R1 & R3 & R4) & R5 & R6 & R7).
+    cbn. split; [congruence|]. split; [intros; apply F4; congruence|].
     assert (I1 : (nf = O -> iso_default d) -> iso_default d2).
     { intros Hd. apply R7. destruct nf; [right|left; discriminate].
       specialize (Hd eq_refl). destruct (G5 eq_refl) as [[-> _]|[-> _]]; auto. }
@@ -99,44 +99,41 @@ Proof.
         destruct (G5 eq_refl) as [[-> _]|[-> [->|[-> ->]]]]; cbn; auto; try congruence;
         try (apply Ht; auto);
         try (destruct (dirty d) eqn:Ed; auto; rewrite HDI in *; auto; rewrite Ht in *; auto; discriminate).
-  - cbn. split; [congruence|]. split; [congruence|]. split; [intros; apply F4; congruence|].
+  - cbn. split; [congruence|]. split; [intros; apply F4; congruence|].
     unfold PoolIso, PoolOk; cbn. auto.
 Qed.
 
 (* ---- one operation of a user *)
 (* every characteristic that was set has a pending finaliser *)
 Definition CI (c : cst) : Prop := nfin c = O -> iso_default (cdb c).
-(* the ghost flags only go up *)
-Definition Up (s s' : st) : Prop :=
-  (bad_close s = true -> bad_close s' = true) /\
-  (twr_unsound s' = true -> twr_unsound s = true \/ bad_close s' = true).
+(* transaction_was_reset=True never reaches _reset over an open DBAPI transaction *)
+Definition Up (s s' : st) : Prop := twr_unsound s' = true -> twr_unsound s = true.
 
 Ltac dd := let X := fresh in intro X; discriminate X.
 
 Lemma Fr_Up : forall s s', Fr s s' -> Up s s'.
-Proof. intros s s' (F1 & F2 & F3 & F4). unfold Up. rewrite F2, F3. auto. Qed.
+Proof. intros s s' (F1 & F2 & F3). unfold Up. rewrite F2. auto. Qed.
 
 Lemma clean_DI : forall d, DI (clean d).
 Proof. intros d H. cbn in H. discriminate. Qed.
 
-(* the three ways a checkout ends through _finalize_fairy *)
+(* the ways a checkout ends through _finalize_fairy *)
 Lemma finalize_end : forall d nf twr s, (nf = O -> iso_default d) -> DI d ->
-  (twr = true -> in_txn d = true -> bad_close s = true) ->
+  (twr = true -> in_txn d = false) ->
   let s' := finalize reset kind d nf twr s in
-  Up s s' /\ PoolIso s' /\ (reset <> RNone -> bad_close s' = false -> PoolOk s').
+  Up s s' /\ PoolIso s' /\ (reset <> RNone -> PoolOk s').
 Proof.
-  intros d nf twr s HC HD Ht. destruct (finalize_spec d nf twr s) as (F1 & F2 & F3 & F4 & F5). cbv zeta.
+  intros d nf twr s HC HD Ht. destruct (finalize_spec d nf twr s) as (F2 & F3 & F4 & F5). cbv zeta.
   split; [|split; [auto|]].
-  - unfold Up. rewrite F1. split; [auto|]. intros H. destruct (F3 H) as [?|[? ?]]; auto.
-  - intros Hr Hb. apply F5; auto. intros -> _. destruct (in_txn d) eqn:E; auto.
-    rewrite F1 in Hb. rewrite Ht in Hb; auto; discriminate.
+  - unfold Up. intros H. destruct (F3 H) as [?|[Hw Hi]]; auto. rewrite Ht in Hi; auto. discriminate.
+  - intros Hr. apply F5; auto.
 Qed.
 
 Lemma do_op_spec : forall o c s code c' s', do_op reset kind o c s = (code, c', s') ->
   CI c -> DI (cdb c) -> done c = false ->
   CI c' /\ DI (cdb c') /\ Up s s' /\
   (done c' = false -> idle s' = idle s) /\
-  (done c' = true -> PoolIso s' /\ (reset <> RNone -> bad_close s' = false -> PoolOk s')).
+  (done c' = true -> PoolIso s' /\ (reset <> RNone -> PoolOk s')).
 Proof.
   intros o c s code c' s' H HC HD Hdn. unfold CI in *.
   assert (U0 : Up s s) by (apply Fr_Up, Fr_refl).
@@ -195,20 +192,14 @@ Proof.
   - (* close *)
     destruct t as [[|]|].
     + destruct (db_rollback d s) as [[ok d1] s1] eqn:E. apply db_rollback_spec in E. destruct E as [E1 E2].
-      cbn [negb andb] in H. destruct ok; subst; inversion H; subst; clear H; cbn [cdb done nfin txn].
-      * destruct (finalize_end (clean d) nf true s1) as (G1 & G2 & G3); auto; [apply clean_DI|cbn; intros; discriminate|].
+      destruct ok; subst; inversion H; subst; clear H; cbn [cdb done nfin txn].
+      * destruct (finalize_end (clean d) nf true s1) as (G1 & G2 & G3); auto; [apply clean_DI|].
         split; auto. split; [apply clean_DI|]. split; [|split; [dd|auto]].
-        destruct E1 as (F1 & F2 & F3 & F4). unfold Up in *. rewrite <- F2, <- F3. exact G1.
+        destruct E1 as (F1 & F2 & F3). unfold Up in *. rewrite <- F2. exact G1.
       * split; auto. split; auto. split; [apply Fr_Up; auto|]. split; [destruct E1; auto|dd].
-    + cbn [negb andb] in H. inversion H; subst; clear H; cbn [cdb done nfin txn].
-      set (s1 := if in_txn d then set_bad s else s).
-      assert (B1 : (in_txn d = true -> bad_close s1 = true) /\ Up s s1).
-      { subst s1. destruct (in_txn d); cbn; split; auto; try discriminate. unfold Up; cbn. auto. }
-      destruct B1 as [B1 B2].
-      destruct (finalize_end d nf true s1) as (G1 & G2 & G3); auto.
-      split; auto. split; auto. split; [|split; [dd|auto]].
-      unfold Up in *. destruct B2 as [B2 B3], G1 as [G1 G1']. split; [auto|].
-      intros Hu. destruct (G1' Hu) as [Hu'|?]; auto. destruct (B3 Hu') as [?|Hb]; auto.
+    + inversion H; subst; clear H; cbn [cdb done nfin txn].
+      destruct (finalize_end d nf false s) as (G1 & G2 & G3); auto; [intros; discriminate|].
+      split; auto. split; auto. split; auto. split; [dd|auto].
     + inversion H; subst; clear H; cbn [cdb done nfin txn].
       destruct (finalize_end d nf false s) as (G1 & G2 & G3); auto; [intros; discriminate|].
       split; auto. split; auto. split; auto. split; [dd|auto].
@@ -224,15 +215,14 @@ Qed.
 
 Lemma Up_trans : forall a b c, Up a b -> Up b c -> Up a c.
 Proof.
-  unfold Up; intros a b c [A1 A2] [B1 B2]. split; [auto|].
-  intros H. destruct (B2 H) as [H1|H1]; auto. destruct (A2 H1) as [H2|H2]; auto.
+  unfold Up; intros a b c A B H. auto.
 Qed.
 
 Lemma do_ops_spec : forall ops c s codes codes' c' s', do_ops reset kind ops c s codes = (codes', c', s') ->
   CI c -> DI (cdb c) -> done c = false ->
   CI c' /\ DI (cdb c') /\ Up s s' /\
   (done c' = false -> idle s' = idle s) /\
-  (done c' = true -> PoolIso s' /\ (reset <> RNone -> bad_close s' = false -> PoolOk s')).
+  (done c' = true -> PoolIso s' /\ (reset <> RNone -> PoolOk s')).
 Proof.
   induction ops as [|o r IH]; intros c s codes codes' c' s' H HC HD Hd; cbn [do_ops] in H.
   - inversion H; subst. split; [exact HC|]. split; [exact HD|]. split; [apply Fr_Up, Fr_refl|]. split; [reflexivity|]. rewrite Hd. dd.
@@ -287,7 +277,7 @@ Proof.
   - (* close *)
     destruct t as [[|]|].
     + destruct (db_rollback d s) as [[ok d1] s1] eqn:E. apply db_rollback_spec in E. destruct E as [E1 E2].
-      cbn [negb andb] in H. destruct ok; subst; inversion H; subst; [|cbn in Hdn; discriminate].
+      destruct ok; subst; inversion H; subst; [|cbn in Hdn; discriminate].
       apply finalize_DI, clean_DI.
     + inversion H; subst. apply finalize_DI; auto.
     + inversion H; subst. apply finalize_DI; auto.
@@ -308,12 +298,12 @@ Proof.
 Qed.
 
 (* ---- one user *)
-Definition PoolAll (s : st) : Prop := PoolIso s /\ PoolDI s /\ (reset <> RNone -> bad_close s = false -> PoolOk s).
+Definition PoolAll (s : st) : Prop := PoolIso s /\ PoolDI s /\ (reset <> RNone -> PoolOk s).
 
 Lemma checkout_spec : forall s, PoolAll s ->
   let d := fst (checkout s) in let s0 := snd (checkout s) in
-  iso_default d /\ DI d /\ (reset <> RNone -> bad_close s = false -> pristine d = true) /\
-  idle s0 = None /\ bad_close s0 = bad_close s /\ twr_unsound s0 = twr_unsound s.
+  iso_default d /\ DI d /\ (reset <> RNone -> pristine d = true) /\
+  idle s0 = None /\ twr_unsound s0 = twr_unsound s.
 Proof.
   intros s (P1 & P2 & P3). unfold checkout, PoolIso, PoolDI, PoolOk in *. destruct (idle s) as [d|]; cbn.
   - split; [exact P1|]. split; [exact P2|]. split; [exact P3|]. repeat split.
@@ -325,13 +315,13 @@ Lemma user_spec : forall ops s, PoolAll s ->
   PoolAll s' /\ Up s s'.
 Proof.
   intros ops s HP. unfold user.
-  destruct (checkout_spec s HP) as (C1 & C2 & C3 & C4 & C5 & C6).
+  destruct (checkout_spec s HP) as (C1 & C2 & C3 & C4 & C6).
   destruct (checkout s) as [d s0] eqn:Ec. cbn [fst snd] in *.
-  set (s1 := mkst (idle s0) (nconn s0) (faults s0) [] (bad_close s0) (twr_unsound s0)).
+  set (s1 := mkst (idle s0) (nconn s0) (faults s0) [] (twr_unsound s0)).
   destruct (do_ops reset kind ops (mkcst d None O false) s1 []) as [[codes c] s2] eqn:E.
   assert (HC : CI (mkcst d None O false)) by (intros _; exact C1).
   destruct (do_ops_spec _ _ _ _ _ _ _ E HC C2 eq_refl) as (A1 & A2 & A3 & A4 & A5).
-  assert (U01 : Up s s1) by (unfold Up; subst s1; cbn; rewrite C5, C6; auto).
+  assert (U01 : Up s s1) by (unfold Up; subst s1; cbn; rewrite C6; auto).
   cbn [snd]. destruct (done c) eqn:Ed.
   - destruct (A5 eq_refl) as [B1 B2]. split; [|eapply Up_trans; eauto].
     split; [exact B1|]. split; [|exact B2].
@@ -353,19 +343,17 @@ Lemma init_PoolAll : forall fl, PoolAll (init fl).
 Proof. intros; unfold PoolAll, PoolIso, PoolDI, PoolOk; cbn; auto. Qed.
 
 (* ---------------------------------------------------------------- the theorems *)
-(* clean_on_checkout (guarded): with reset_on_return enabled, for every history of users and every
-   fault script, unless some close() ran with an inactive transaction object attached over an open
-   DBAPI transaction, the connection handed to the next checkout is pristine *)
-Theorem clean_on_checkout_guarded : reset <> RNone -> forall us fl,
-  let s := run reset kind us (init fl) in
-  bad_close s = false -> pristine (next_checkout s) = true.
+(* clean_on_checkout: with reset_on_return enabled, for every history of users and every fault
+   script, the connection handed to the next checkout is pristine *)
+Theorem clean_on_checkout : reset <> RNone -> forall us fl,
+  pristine (next_checkout (run reset kind us (init fl))) = true.
 Proof.
-  intros Hr us fl s Hb. destruct (run_spec us _ (init_PoolAll fl)) as [HP _]. fold s in HP.
-  destruct (checkout_spec s HP) as (_ & _ & C3 & _). exact (C3 Hr Hb).
+  intros Hr us fl. destruct (run_spec us _ (init_PoolAll fl)) as [HP _].
+  destruct (checkout_spec _ HP) as (_ & _ & C3 & _). exact (C3 Hr).
 Qed.
 
-(* characteristics_restored: whatever the reset style and whatever happened (also in the defective
-   region): the next checkout sees the default isolation level / autocommit setting *)
+(* characteristics_restored: whatever the reset style: the next checkout sees the default isolation
+   level / autocommit setting *)
 Theorem characteristics_restored : forall us fl,
   iso_default (next_checkout (run reset kind us (init fl))).
 Proof.
@@ -384,14 +372,13 @@ Proof.
   destruct (do_ops_spec _ _ _ _ _ _ _ H HC HD eq_refl) as (A1 & _). exact A1.
 Qed.
 
-(* reset_exactly_once_or_skipped_soundly: transaction_was_reset=True reaches _reset over an open
-   DBAPI transaction only in the defective region *)
+(* reset_exactly_once_or_skipped_soundly: transaction_was_reset=True never reaches _reset over an open
+   DBAPI transaction *)
 Theorem reset_skipped_soundly : forall us fl,
-  let s := run reset kind us (init fl) in
-  twr_unsound s = true -> bad_close s = true.
+  twr_unsound (run reset kind us (init fl)) = false.
 Proof.
-  intros us fl s H. destruct (run_spec us _ (init_PoolAll fl)) as [_ [U1 U2]]. fold s in U2.
-  destruct (U2 H) as [H1|H1]; [cbn in H1; discriminate|exact H1].
+  intros us fl. destruct (run_spec us _ (init_PoolAll fl)) as [_ U].
+  destruct (twr_unsound (run reset kind us (init fl))) eqn:E; auto. apply U in E. cbn in E. discriminate.
 Qed.
 
 End P.
